@@ -264,3 +264,49 @@ def rule_complete(prog):
 
 def run_all(prog):
     return [rule_conflict(prog), rule_bits(prog), rule_reset(prog), rule_norm(prog), rule_suppress(prog), rule_complete(prog)]
+
+
+def rule_hidden(prog):
+    """R-SEQ-HIDDEN (C14): a key typed in sequence mode is remembered as hidden exactly in the modes that do not press it.
+
+    do_sequence_press_logic presses a key typed during a sequence at the OS only in the visible-backspaced mode; in the
+    hidden modes (hidden-suppressed, hidden-delay-type) the key is in the layout but up at the OS. handle_keystate_changes
+    records such keys in keys_hidden_by_sequence so that the OS-repeat handler does not forward repeats for them. The
+    two sites must split the modes the same way: a mode that neither presses nor records lets an OS repeat through for
+    a key that is up (it turns into a press that is never released until the physical release)."""
+    from kq.gf2 import root_desc
+    res = RuleResult("R-SEQ-HIDDEN", "keys_hidden_by_sequence records a key iff the sequence mode does not press it at the OS", floor=3)
+    ADT = "kanata_parser::cfg::SequenceInputMode"
+    try:
+        variants = list(prog.enum_variants(ADT).values())
+    except Exception:
+        ADT = next((n for n in prog.adts if n.endswith("::SequenceInputMode")), None)
+        variants = list(prog.enum_variants(ADT).values()) if ADT else []
+    p = prog.fn_opt("kanata_state_machine::kanata::sequences::do_sequence_press_logic")
+    h = prog.fn_opt("kanata_state_machine::kanata::Kanata::handle_keystate_changes")
+    if p is None or h is None or not variants:
+        res.viol("anchor", "src/kanata/sequences.rs", "do_sequence_press_logic / handle_keystate_changes / SequenceInputMode not found")
+        return res
+    res.fn(p)
+    res.fn(h)
+    press = [bi for bi, t in p.calls() if (callee_name(t) or "").endswith("::press_key") and "KbdOut" not in (callee_name(t) or "")]
+    rec = [bi for bi, t in h.calls() if (callee_name(t) or "").split("::")[-1] == "push" and t["args"]
+           and (root_desc(h, t["args"][0]) or "").endswith(".keys_hidden_by_sequence")]
+    if len(press) != 1 or len(rec) != 1:
+        res.viol("anchor/sites", p.loc, "expected one press_key call in do_sequence_press_logic (%d) and one keys_hidden_by_sequence.push in "
+                                       "handle_keystate_changes (%d)" % (len(press), len(rec)))
+        return res
+    for v in variants:
+        pressed = press[0] in reach_under_variant(prog, p, ADT, v)
+        recorded = rec[0] in reach_under_variant(prog, h, ADT, v)
+        ok = pressed != recorded
+        res.inst("mode/" + v, where="%s:%s" % (h.file, h.line_of(rec[0])), pressed_at_os=pressed, recorded_as_hidden=recorded, ok=ok)
+        res.oblige(ok)
+        if not ok:
+            res.viol("mode/" + v, "%s:%s" % (h.file, h.line_of(rec[0])),
+                     "sequence-input-mode %s: a key typed during a sequence is %s at the OS by do_sequence_press_logic and %s in "
+                     "keys_hidden_by_sequence by handle_keystate_changes. %s" %
+                     (v, "pressed" if pressed else "not pressed", "recorded" if recorded else "not recorded",
+                      "The key is up at the OS but in the layout: once the sequence is over an OS repeat for it is forwarded as a press of "
+                      "a key that is up" if not pressed else "A key that is down at the OS no longer repeats"))
+    return res
